@@ -102,6 +102,39 @@ type travGen struct {
 	out     []Clause
 	req     []Clause
 	skipped []string
+	ptrs    []ptrClause
+}
+
+// ptrClause remembers a clause about an optional-handle cell (a pointer field):
+// a traversal that rewrites such cells in place rewrites each of them once only
+// if the cells of one statement are distinct, so the step clauses of sibling
+// cells are stated under that condition (separateCells).
+type ptrClause struct {
+	idx       int
+	label, in string
+}
+
+func kindOfLabel(l string) string {
+	ps := strings.Split(l, ".")
+	if len(ps) >= 2 {
+		return ps[0] + "." + ps[1]
+	}
+	return l
+}
+
+func (g *travGen) separateCells() {
+	for _, p := range g.ptrs {
+		var conds []string
+		for _, q := range g.ptrs {
+			if q.idx != p.idx && kindOfLabel(q.label) == kindOfLabel(p.label) {
+				conds = append(conds, p.in+" != "+q.in)
+			}
+		}
+		if len(conds) > 0 {
+			g.out[p.idx].Src = "(" + strings.Join(conds, " && ") + ") ==> (" + g.out[p.idx].Src + ")"
+			g.skipped = append(g.skipped, p.label+" (stated for distinct optional-handle cells within one statement)")
+		}
+	}
 }
 
 func (g *travGen) mapOf(old string) string {
@@ -116,7 +149,22 @@ func (g *travGen) rd(path string) string {
 	if g.tr.Mode == "mark" {
 		return "old(" + path + ")"
 	}
+	if g.tr.Mode == "stepremap" {
+		return "prev(" + path + ")"
+	}
 	return path
+}
+
+// isRemap: the traversal rewrites handles (function result vs. parameter for
+// "remap"; slice element at the back edge vs. at the loop header for "stepremap").
+func (g *travGen) isRemap() bool { return g.tr.Mode == "remap" || g.tr.Mode == "stepremap" }
+
+// was reads a sub-path of the input as it was before the rewrite.
+func (g *travGen) was(path string) string {
+	if g.tr.Mode == "stepremap" {
+		return "prev(" + path + ")"
+	}
+	return "old(" + path + ")"
 }
 
 // walk emits the clauses for the value at `in` (input path) / `out` (result
@@ -135,14 +183,14 @@ func (g *travGen) walk(t types.Type, in, out, cond, condIn, label string, depth 
 		return
 	}
 	if !e.hasHandle(t, g.h, 0) {
-		if g.tr.Mode == "remap" || g.tr.Mode == "keep" {
+		if g.isRemap() || g.tr.Mode == "keep" {
 			if _, isFunc := t.Underlying().(*types.Signature); isFunc {
 				return
 			}
 			if _, isMap := t.Underlying().(*types.Map); isMap {
 				return
 			}
-			add("keep:"+label, out+" == "+in)
+			add("keep:"+label, out+" == "+g.rd(in))
 		}
 		return
 	}
@@ -150,8 +198,8 @@ func (g *travGen) walk(t types.Type, in, out, cond, condIn, label string, depth 
 		if g.tr.Mode == "keep" {
 			return
 		}
-		if g.tr.Mode == "remap" {
-			add("trav:"+label, out+" == "+g.mapOf(in))
+		if g.isRemap() {
+			add("trav:"+label, out+" == "+g.mapOf(g.rd(in)))
 		} else {
 			add("trav:"+label, g.mapOf(g.rd(in)))
 		}
@@ -160,7 +208,7 @@ func (g *travGen) walk(t types.Type, in, out, cond, condIn, label string, depth 
 	switch u := t.Underlying().(type) {
 	case *types.Pointer:
 		if !types.Identical(u.Elem(), g.h) {
-			if _, isStruct := u.Elem().Underlying().(*types.Struct); isStruct && g.tr.Mode != "remap" {
+			if _, isStruct := u.Elem().Underlying().(*types.Struct); isStruct && !g.isRemap() {
 				// a pointer to a struct: its fields are reached through the pointer
 				g.walk(u.Elem(), in, out, joinCond(cond, g.rd(in)+" != nil"), joinCond(condIn, in+" != nil"), label, depth+1)
 				return
@@ -169,16 +217,19 @@ func (g *travGen) walk(t types.Type, in, out, cond, condIn, label string, depth 
 			return
 		}
 		g.req = append(g.req, Clause{Label: "valid:" + label, Src: implies(condIn, "valid("+in+")")})
-		if g.tr.Mode == "remap" {
-			add("trav:"+label+":nil", in+" == nil ==> "+out+" == nil")
-			add("trav:"+label, in+" != nil ==> "+out+" != nil && *"+out+" == "+g.mapOf("old(*"+in+")"))
-			add("frame:"+label, in+" != nil ==> *"+in+" == old(*"+in+")")
+		if g.isRemap() {
+			add("trav:"+label+":nil", g.rd(in)+" == nil ==> "+out+" == nil")
+			g.ptrs = append(g.ptrs, ptrClause{len(g.out), label, g.rd(in)})
+			add("trav:"+label, g.rd(in)+" != nil ==> "+out+" != nil && *"+out+" == "+g.mapOf(g.was("*"+in)))
+			if g.tr.Mode == "remap" {
+				add("frame:"+label, in+" != nil ==> *"+in+" == old(*"+in+")")
+			}
 		} else {
 			add("trav:"+label, g.rd(in)+" != nil ==> "+g.mapOf(g.rd("*"+in)))
 		}
 	case *types.Slice:
 		if !types.Identical(u.Elem(), g.h) {
-			if est, ok := u.Elem().Underlying().(*types.Struct); ok && g.tr.Mode != "remap" {
+			if est, ok := u.Elem().Underlying().(*types.Struct); ok && !g.isRemap() {
 				// every element's handle-typed fields (one level)
 				for i := 0; i < est.NumFields(); i++ {
 					ef := est.Field(i)
@@ -193,7 +244,11 @@ func (g *travGen) walk(t types.Type, in, out, cond, condIn, label string, depth 
 			g.skipped = append(g.skipped, label+" (slice of "+typeShort(u.Elem())+")")
 			return
 		}
-		if g.tr.Mode == "remap" {
+		if g.tr.Mode == "stepremap" {
+			// the element list may be rewritten in place: only its content is fixed
+			add("trav:"+label+":len", "len("+out+") == len("+g.rd(in)+")")
+			add("trav:"+label, "forall i int :: 0 <= i && i < len("+g.rd(in)+") ==> "+out+"[i] == "+g.mapOf(g.was(in+"[i]")))
+		} else if g.tr.Mode == "remap" {
 			add("trav:"+label+":len", "len("+out+") == len("+in+")")
 			add("trav:"+label, "forall i int :: 0 <= i && i < len("+in+") ==> "+out+"[i] == "+g.mapOf("old("+in+"[i])"))
 			add("frame:"+label, "forall i int :: 0 <= i && i < len("+in+") ==> "+in+"[i] == old("+in+"[i])")
@@ -215,8 +270,8 @@ func (g *travGen) walk(t types.Type, in, out, cond, condIn, label string, depth 
 			g.skipped = append(g.skipped, label+" (open-world interface)")
 			return
 		}
-		if g.tr.Mode == "remap" || g.tr.Mode == "keep" {
-			add("trav:"+label+":nil", "isnil("+in+") ==> isnil("+out+")")
+		if g.isRemap() || g.tr.Mode == "keep" {
+			add("trav:"+label+":nil", "isnil("+g.rd(in)+") ==> isnil("+out+")")
 		}
 		for _, c := range e.sc.ifaceImpl[s] {
 			cn := typeShort(c)
@@ -240,7 +295,7 @@ func (g *travGen) walk(t types.Type, in, out, cond, condIn, label string, depth 
 			}
 			c2 := joinCond(cond, "is("+g.rd(in)+", "+cn+")")
 			cIn2 := joinCond(condIn, "is("+in+", "+cn+")")
-			if g.tr.Mode == "remap" || g.tr.Mode == "keep" {
+			if g.isRemap() || g.tr.Mode == "keep" {
 				g.out = append(g.out, Clause{Label: "kind:" + kl, Src: c2 + " ==> is(" + out + ", " + cn + ")"})
 				// everything below is stated under "the result has that kind" so that a
 				// wrong kind fails kind: only
@@ -367,13 +422,21 @@ func (e *Engine) derived(fn *ssa.Function, ctr *Contract) (req, ens []Clause) {
 		if tr.Mode == "mark" {
 			out = tr.Param
 		}
-		if tr.Mode == "stepmark" {
+		if tr.Mode == "stepmark" || tr.Mode == "stepremap" {
 			sl, ok := pt.Underlying().(*types.Slice)
 			if !ok {
-				panic("traverse stepmark: " + tr.Param + " is not a slice")
+				panic("traverse " + tr.Mode + ": " + tr.Param + " is not a slice")
 			}
-			el := "prev(" + tr.Param + "[rangeindex+1])"
-			g.walk(sl.Elem(), el, el, "", "", "", 0)
+			if tr.Mode == "stepmark" {
+				el := "prev(" + tr.Param + "[rangeindex+1])"
+				g.walk(sl.Elem(), el, el, "", "", "", 0)
+			} else {
+				// the element handled by this iteration, before (rd/was wrap the
+				// path in prev()) and after (read at the back edge)
+				g.walk(sl.Elem(), tr.Param+"[rangeindex+1]", tr.Param+"[prev(rangeindex+1)]", "", "", "", 0)
+				g.separateCells()
+				g.out = mergeKeeps(g.out)
+			}
 			if e.derivedSteps == nil {
 				e.derivedSteps = map[*Contract]map[int][]Clause{}
 			}
